@@ -238,6 +238,35 @@ func judgeNumeric(c *Ctx, sc *Scenario, sp *numericSpec) *Violation {
 				return &Violation{pfx + "mismatch-on-real-git:" + strings.SplitN(bad[0], ":", 2)[0], "with real git peers: " + strings.Join(bad, "; ")}
 			}
 			c.Stats.Conformance["cli-runs-cross-checked-on-real-git"]++
+			if len(res.Run.Unmodelled) > 0 {
+				// an option the stub does not model may depend on how objects
+				// are stored: real git also judges the packed layouts
+				for _, layout := range []string{"bitmap", "promisor"} {
+					lw := w.Clone()
+					lw.Layout = layout
+					ls, err := Materialise(lw)
+					if err != nil {
+						continue
+					}
+					lr := *sc
+					lr.World = lw
+					lr.Plan = Plan{RealPeers: true}
+					lres := RunA(c.T, c.H, &lr, ls)
+					ls.Close()
+					c.Stats.AddResult(lres)
+					if lres.Panic != "" || lres.Failed {
+						return &Violation{pfx + "real-peers-run-failed", "layout " + layout + ": " + lres.Panic + lres.Err}
+					}
+					lg, err := ParseJSONObject(lres.Stdout)
+					if err != nil {
+						return &Violation{pfx + "bad-json", "real peers, layout " + layout + ": " + err.Error()}
+					}
+					if bad := ex.CompareV1(lg, sp.fields); len(bad) > 0 {
+						sort.Strings(bad)
+						return &Violation{pfx + "mismatch-on-real-git:" + strings.SplitN(bad[0], ":", 2)[0], "with real git peers, layout " + layout + ": " + strings.Join(bad, "; ")}
+					}
+				}
+			}
 		}
 	}
 	if sp.nontrivial != nil && sp.nontrivial(w, ex, sel) {
